@@ -4,6 +4,7 @@
 package interop
 
 import (
+	"context"
 	"encoding/json"
 	"errors"
 	"fmt"
@@ -106,6 +107,11 @@ type Invoke struct {
 	InvokeResponseMode       InvokeResponseMode
 	RestoreDurationNs        int64 // equals 0 for non-snapstart functions
 	RestoreStartTimeMonotime int64 // equals 0 for non-snapstart functions
+
+	// DispatchCtx, if set, is cancelled as soon as the reservation this invoke was
+	// dispatched for is being reset. An invoke handler that only gets to run
+	// afterwards must not process the invoke: nobody is waiting for it any more.
+	DispatchCtx context.Context
 }
 
 type Token struct {
